@@ -46,6 +46,85 @@ package deviceshare
 //@   loop 1 invariant forall m int, rn corev1.ResourceName :: has(out, m) ==> val(out[m], rn) == val(r[m], rn) && has(out[m], rn) == has(r[m], rn)
 //@   loop 1 invariant rlSame()
 
+// ---- accumulating / releasing per-device amounts (preemptible and reservation bookkeeping over the live allocate set) ----
+
+// The accumulators these two methods work on (state.preemptibleDevices, merged reservation amounts, ...) are built only by
+// deviceResources.DeepCopy / append / subtract / quotav1.Subtract*, so every list they hold is a non-nil object of their own:
+// drLists (no nil list), drDistinct (no list under two minors), drApart (none of r's lists is a list of `in`; r is not `in`).
+// The argument `in` is typically nodeDevice.getUsed(pod): a SHALLOW copy whose lists are the live lists of the allocate set --
+// which is why append must copy what it inserts and must never write through a list of `in`.
+//@ spec func admits(hint sets.Int, m int) bool = hint.Len() == 0 || hint.Has(m)
+//@ spec func drLists(d deviceResources) bool = forall m int :: {d[m]} has(d, m) ==> d[m] != nil
+//@ spec func drDistinct(d deviceResources) bool = forall m int, k int :: {d[m], d[k]} has(d, m) && has(d, k) && m != k ==> d[m] != d[k]
+//@ spec func drApart(r deviceResources, in deviceResources) bool = r != in && (forall m int, k int :: {r[m], in[k]} has(r, m) && has(in, k) ==> r[m] != in[k])
+
+// append: r[m] += in[m] for every minor m of `in` that the hint admits (an empty hint admits all).
+//   #dom     r's minors afterwards: the old ones plus the admitted minors of `in`;
+//   #kept    an entry r already had keeps its identity (it is added to in place);
+//   #fresh   an entry inserted for a new minor is a fresh list (a deep copy), never the caller's list in[m];
+//   #input   every ResourceList that existed on entry and is not one of r's own old lists under an admitted minor of `in`
+//            -- in particular every list of `in` -- has the same keys and amounts on exit;
+//   #sum / #keys  amounts: old amount (0 for a new minor) plus in's amount for admitted minors of `in`, unchanged otherwise;
+//   #ok      the accumulator invariants are kept (so the next append / subtract on r may assume them again).
+//@ func (deviceResources).append [C07]
+//@   requires r != nil ==> drLists(r) && drDistinct(r) && drApart(r, in) && drLists(in)
+//@   ensures #nil: r == nil ==> rlSame()
+//@   ensures #dom: r != nil ==> (forall m int :: has(r, m) == (old(has(r, m)) || (has(in, m) && admits(hintMinors, m))))
+//@   ensures #kept: forall m int :: old(has(r, m)) ==> r[m] == old(r[m])
+//@   ensures #fresh: forall m int :: has(r, m) && !old(has(r, m)) ==> r[m] != nil && fresh(r[m]) && r[m] != in[m]
+//@   ensures #input_in: forall m int, rn corev1.ResourceName :: has(in, m) == old(has(in, m)) && in[m] == old(in[m]) && val(in[m], rn) == old(val(in[m], rn)) && has(in[m], rn) == old(has(in[m], rn))
+//@   ensures #input: forall q corev1.ResourceList, rn corev1.ResourceName :: {val(q, rn)} {has(q, rn)} allocated(q) && (forall m int :: {old(r[m])} !(old(has(r, m)) && old(r[m]) == q && has(in, m) && admits(hintMinors, m))) ==> val(q, rn) == old(val(q, rn)) && has(q, rn) == old(has(q, rn))
+//@   ensures #sum: r != nil ==> (forall m int, rn corev1.ResourceName :: val(r[m], rn) == old(val(r[m], rn)) + (has(in, m) && admits(hintMinors, m) ? old(val(in[m], rn)) : 0))
+//@   ensures #keys: r != nil ==> (forall m int, rn corev1.ResourceName :: has(r[m], rn) == (old(has(r[m], rn)) || (has(in, m) && admits(hintMinors, m) && old(has(in[m], rn)))))
+//@   ensures #ok: r != nil ==> drLists(r) && drDistinct(r) && drApart(r, in)
+//@   modifies contents(r), allmaps(r[0])
+//@   loop 1 invariant r != nil && r != in
+//@   loop 1 invariant #dom: forall m int :: has(r, m) == (old(has(r, m)) || ($seen[m] && has(in, m) && admits(hintMinors, m)))
+//@   loop 1 invariant #kept: forall m int :: old(has(r, m)) ==> r[m] == old(r[m])
+//@   loop 1 invariant #fresh: forall m int :: has(r, m) && !old(has(r, m)) ==> r[m] != nil && fresh(r[m])
+//@   loop 1 invariant #in: forall m int :: has(in, m) == old(has(in, m)) && in[m] == old(in[m])
+//@   loop 1 invariant #distinct: drDistinct(r)
+//@   loop 1 invariant #apart: drApart(r, in)
+//@   loop 1 invariant #input: forall q corev1.ResourceList, rn corev1.ResourceName :: {val(q, rn)} {has(q, rn)} allocated(q) && (forall m int :: {old(r[m])} !($seen[m] && old(has(r, m)) && old(r[m]) == q && has(in, m) && admits(hintMinors, m))) ==> val(q, rn) == old(val(q, rn)) && has(q, rn) == old(has(q, rn))
+//@   loop 1 invariant #sum: forall m int, rn corev1.ResourceName :: val(r[m], rn) == old(val(r[m], rn)) + ($seen[m] && has(in, m) && admits(hintMinors, m) ? old(val(in[m], rn)) : 0)
+//@   loop 1 invariant #keys: forall m int, rn corev1.ResourceName :: has(r[m], rn) == (old(has(r[m], rn)) || ($seen[m] && has(in, m) && admits(hintMinors, m) && old(has(in[m], rn))))
+
+// subtract: r[m] -= in[m] for every minor m of `in` (clamped at 0 per resource when withNonNegativeResult), written into a
+// FRESH list (quotav1.Subtract*); a minor whose difference is all-zero is removed from r.
+//   #diff    amounts of the minors of `in`: old amount (0 when r lacked the minor or the name) minus in's amount, resp.
+//            max0 of it. The clamped form is claimed where the ASSUMED extern of SubtractWithNonNegativeResult
+//            (/verif/lib/quota.spec: max0(a - b) for every name) is faithful to the library code, i.e. the name is in r's old
+//            list or in's amount is >= 0 (for a name only in `in` the library stores 0 whatever the sign of in's amount);
+//   #absent  what really happens for a minor that `in` has and r lacks: r[m] is read as an empty list, so without clamping a
+//            NEW entry holding the NEGATED amounts of in[m] is inserted (unless they are all 0);
+//   #dom     a minor of `in` is in r afterwards iff its new amounts are not all 0 (whether or not r had it before);
+//   #fresh   the entries written are fresh non-nil lists: neither r's old list nor a list of `in`;
+//   #rest    minors that `in` lacks keep their entry (same list object); #rlframe: NO ResourceList that existed on entry is
+//            written -- neither the lists of `in` nor r's own old lists (they are replaced, not updated);
+//   #ok      the accumulator invariants survive.
+//@ spec func subAmt(a real, b real, clamp bool) real = clamp ? max0(a - b) : a - b
+//@ func (deviceResources).subtract [C07]
+//@   requires r != nil ==> r != in
+//@   ensures #diff: r != nil ==> (forall m int, rn corev1.ResourceName :: has(in, m) && (withNonNegativeResult ==> old(has(r[m], rn)) || old(val(in[m], rn)) >= 0) ==> val(r[m], rn) == subAmt(old(val(r[m], rn)), old(val(in[m], rn)), withNonNegativeResult))
+//@   ensures #absent: r != nil && !withNonNegativeResult ==> (forall m int, rn corev1.ResourceName :: has(in, m) && !old(has(r, m)) ==> val(r[m], rn) == -old(val(in[m], rn)))
+//@   ensures #dom: r != nil ==> (forall m int :: has(in, m) ==> (has(r, m) <==> (exists rn corev1.ResourceName :: val(r[m], rn) != 0)))
+//@   ensures #keys: r != nil ==> (forall m int, rn corev1.ResourceName :: has(in, m) && has(r, m) ==> has(r[m], rn) == (old(has(r[m], rn)) || old(has(in[m], rn))))
+//@   ensures #fresh: r != nil ==> (forall m int :: has(in, m) && has(r, m) ==> r[m] != nil && fresh(r[m]))
+//@   ensures #rest: forall m int :: r == nil || !has(in, m) ==> r[m] == old(r[m]) && has(r, m) == old(has(r, m))
+//@   ensures #input_in: forall m int :: has(in, m) == old(has(in, m)) && in[m] == old(in[m])
+//@   ensures #rlframe: rlSame()
+//@   ensures #ok: r != nil ==> (old(drLists(r)) ==> drLists(r)) && (old(drDistinct(r)) ==> drDistinct(r)) && (old(drApart(r, in)) ==> drApart(r, in))
+//@   modifies contents(r), allmaps(r[0])
+//@   loop 1 invariant r != nil && r != in
+//@   loop 1 invariant #in: forall m int :: has(in, m) == old(has(in, m)) && in[m] == old(in[m])
+//@   loop 1 invariant #rest: forall m int :: !($seen[m] && has(in, m)) ==> r[m] == old(r[m]) && has(r, m) == old(has(r, m))
+//@   loop 1 invariant #diff: forall m int, rn corev1.ResourceName :: $seen[m] && has(in, m) && (withNonNegativeResult ==> old(has(r[m], rn)) || old(val(in[m], rn)) >= 0) ==> val(r[m], rn) == subAmt(old(val(r[m], rn)), old(val(in[m], rn)), withNonNegativeResult)
+//@   loop 1 invariant #dom: forall m int :: $seen[m] && has(in, m) ==> (has(r, m) <==> (exists rn corev1.ResourceName :: val(r[m], rn) != 0))
+//@   loop 1 invariant #keys: forall m int, rn corev1.ResourceName :: $seen[m] && has(in, m) && has(r, m) ==> has(r[m], rn) == (old(has(r[m], rn)) || old(has(in[m], rn)))
+//@   loop 1 invariant #fresh: forall m int :: $seen[m] && has(in, m) && has(r, m) ==> r[m] != nil && fresh(r[m])
+//@   loop 1 invariant #distinct: forall m int, k int :: {r[m], r[k]} $seen[m] && has(in, m) && has(r, m) && $seen[k] && has(in, k) && has(r, k) && m != k ==> r[m] != r[k]
+//@   loop 1 invariant rlSame()
+
 // ---- the per-node ledgers ----
 
 // Data-structure invariant: the three ledgers are distinct non-nil maps and no two of their per-type inner maps are the
